@@ -178,8 +178,15 @@ func c16Run(c c16Case, st *fw.Stats) []fw.Viol {
 		st.Nontrivial++
 		rec := &c16Rec{}
 		for _, ctl := range []any{Res127{rec}, 7, "x", new(int), &[]int{1}, map[string]int{}} {
-			if pv := try(func() { rux.New().Resource("/", ctl) }); pv == nil {
+			rb := rux.New()
+			if pv := try(func() { rb.Resource("/", ctl) }); pv == nil {
 				add("resource:accepted-bad-controller", fmt.Sprintf("Resource(\"/\", %T) was accepted; a non-pointer or non-struct controller must be rejected", ctl))
+			} else {
+				// the rejected call left nothing behind: a resource registered on the same router afterwards gets its table
+				_ = try(func() { rb.Resource("/", &Gadget{rec}) })
+				if got := strings.Join(routeSet(rb), "; "); got != "GET /gadget gadget_index mw=0" {
+					add("resource:after-rejected-controller", fmt.Sprintf("Resource(\"/\", %T) was rejected (panic recovered); Resource(\"/\", &Gadget{}) on the same router then registers [%s], the documented table gives [GET /gadget gadget_index mw=0]", ctl, got))
+				}
 			}
 		}
 		// the first registration of a resource name must not decide what a later, different type of that name gets
